@@ -1,14 +1,15 @@
 ---- MODULE Trace_StackAbs ----
 (* Property monitor for C14 on recorded executions of a REAL goakt actor.  It knows  *)
-(* only the documented contract: a stack of behaviors, top first, "D" = the default   *)
-(* behavior; Become replaces everything, BecomeStacked pushes, UnBecomeStacked pops,  *)
-(* UnBecome leaves only the default.  For every message it checks which behavior      *)
-(* function the runtime really invoked ("none" = no function was invoked, the         *)
-(* message was dropped) and that every switch call was made by that same invocation.  *)
-(* Every line is consumed; a deviation is printed as                                  *)
-(* <<"MISMATCH", line, kind, expected, observed>>.                                    *)
-(* Defects = {} is the documented contract; {"UnBecomePushes"} is the contract of the *)
-(* code as found (used only to classify mismatches, never to excuse them).            *)
+(* only the documented contract: a stack of behaviors, top first, "D" = the default  *)
+(* behavior; Become replaces everything, BecomeStacked pushes, UnBecomeStacked pops, *)
+(* UnBecome leaves only the default; an actor restarted by PID.Restart starts again  *)
+(* with the default only.  For every message it checks which behavior function the   *)
+(* runtime really invoked ("none" = no function was invoked, the message was         *)
+(* dropped) and that every switch call was made by that same invocation.             *)
+(* Every line is consumed; a deviation is printed as                                 *)
+(* <<"MISMATCH", line, kind, expected, observed>>.                                   *)
+(* Defects = {} is the documented contract; {"UnBecomePushes"} is the contract of    *)
+(* the code as found (used only to classify mismatches, never to excuse them).       *)
 EXTENDS Integers, Sequences, TLC, Json
 CONSTANTS Defects
 Trace == ndJsonDeserialize("trace.ndjson")
@@ -29,6 +30,8 @@ Step ==
        [] e.op = "UnBecome" -> /\ Report("executing", cur, e.h)
                                /\ ideal' = IF "UnBecomePushes" \in Defects THEN <<"D">> \o ideal ELSE <<"D">>
                                /\ UNCHANGED cur
+       [] e.op = "Restart" -> /\ Report("restart", "", e.err)
+                              /\ ideal' = <<"D">> /\ cur' = "none"     \* a restarted actor starts with its default behavior only
        [] OTHER            -> UNCHANGED <<ideal, cur>>
 Spec == Init /\ [][Step]_<<l, ideal, cur>>
 ====
